@@ -260,6 +260,15 @@ def dask_level(chk, r, tmp):
         if observe(packed) != ("geo", "pt"):
             chk.violation("active/lost-after-pack_partitions-compute", dict(rep, got=observe(packed)))
         chk.count("dask-level", 3)
+        # packing straight to parquet: the frame handed back is packed along, and has active, the same column
+        pq_path = os.path.join(tmp, "packed_active.parq")
+        back = ddf.pack_partitions_to_parquet(pq_path, npartitions=2, p=8)
+        back_c = back.compute()
+        if back.geometry.name != "pt" or observe(back_c) != ("geo", "pt") or sorted(int(x) for x in back_c.index) != want_h:
+            chk.violation("active/pack_partitions_to_parquet-returns-another-active-column", dict(rep, description=back.geometry.name, computed=observe(back_c),
+                                                                                                  index_ok=sorted(int(x) for x in back_c.index) == want_h))
+        shutil.rmtree(pq_path, ignore_errors=True)
+        chk.count("dask-pack-to-parquet")
         # build_sindex on the collection (frame and series): the active column stays the active column, in the collection's
         # description and in every partition, and box queries still answer from it
         for what in ("frame", "series"):
